@@ -342,7 +342,7 @@ fn int_part(cx: &mut Cx, victim: NodeId, h: Arc<Honest>, which: usize) {
             let h2 = h.clone();
             add(cx, "update_signature", format!("update_index={c}"), 0, Box::new(move || api::update(s, &h2.sk, &h2.sig, &h2.msgs[0], b"new", c, h2.msgs.len()).is_ok()));
             // ... an old signature whose e is -SK (the issuer knows SK; SK + e = 0 has no inverse)
-            if c == 0 {
+            if c == 1 {
                 let h2 = h.clone();
                 add(cx, "update_signature", "old signature with e = -SK".into(), 0, Box::new(move || {
                     let mut sig = h2.sig.clone();
